@@ -1,6 +1,7 @@
 import TD.C05.LemWriter
 import TD.C05.LemStrip
 import TD.C05.LemInit
+import TD.C05.LemScan
 /-!
 C05 — property theorems (LIS physical records: what is written is what is read, at any position; TIF stripping).
 
@@ -64,7 +65,8 @@ example : let L : Layout := ⟨14, true, none, true, .le⟩
 Take any valid layout (all trailer combinations, TIF off / normal / byte-reversed), any list of non-empty logical
 records, and the LIS-79 encoding `encode L rs` of it. For EVERY history of operations
 `read n | skip n | read rest (n<0) | skip rest | skipToNextLr | seekLr(position of record i) | tellLr`
-the replies of the reader model (`PhysRecRead` through `File.FileRead`, constructed on the file) are exactly the
+the replies of the reader model (`PhysRecRead` through `File.FileRead`, constructed on the file with `pad_modulo = 0` and
+any `keepGoing` — `Cfg.plain` is `FileRead(f)`) are exactly the
 replies of the abstract semantics on `(records, cursor = (record, offset))`: bytes are the bytes of the records,
 counts are the numbers of bytes left, positions are the sums of the record sizes, `None` comes once at the end of a
 record, operations at end of file raise the EOF error — and no other exception ever occurs.
@@ -72,22 +74,22 @@ Hypotheses: records non-empty; a TIF file has at least one record; byte-reversed
 words 0x100 and 0x10000 whose byte orders are indistinguishable; the file is shorter than 2^32 − 24 bytes.
 The proof is `init_rel` (invariant holds initially), `step_sim` (every operation preserves the invariant `Rel` and
 answers like the abstract step) and induction over the history (`run_sim`). -/
-theorem read_refines (L : Layout) (rs : List Bytes) (ops : List Op)
+theorem read_refines (cfg : Cfg) [Pad0 cfg] (L : Layout) (rs : List Bytes) (ops : List Op)
     (hL : L.Valid) (hr : ∀ r ∈ rs, r ≠ []) (hne : L.tif ≠ .off → rs ≠ [])
     (hbe : L.tif = .be → firstNext L rs ≠ 0x100 ∧ firstNext L rs ≠ 0x10000)
     (hsz : fileSize L rs + 24 < 4294967296) (hops : HistOK rs ops) :
-    run (encode L rs) (some (Rd.new (encode L rs))) (ops.map (concOp L rs)) = absRun L rs AState.init ops := by
+    run cfg (encode L rs) (some (Rd.new (encode L rs))) (ops.map (concOp L rs)) = absRun L rs AState.init ops := by
   have g : Good L rs := ⟨hL, hr, by unfold fileSize at hsz; omega⟩
-  exact run_sim g ops _ _ (init_rel g hne hbe) (histOK_opOK hops)
+  exact run_sim (cfg := cfg) g ops _ _ (init_rel g hne hbe) (histOK_opOK hops)
 
 /-- **seek_any_order.** After ANY history (any interleaving of reads, skips, seeks in any order), seeking to the reported
 start of record `i`, reading it whole and asking for the position answers: that position, exactly the bytes of record
 `i`, that position. -/
-theorem seek_any_order (L : Layout) (rs : List Bytes) (ops : List Op) (i : Nat)
+theorem seek_any_order (cfg : Cfg) [Pad0 cfg] (L : Layout) (rs : List Bytes) (ops : List Op) (i : Nat)
     (hL : L.Valid) (hr : ∀ r ∈ rs, r ≠ []) (hne : L.tif ≠ .off → rs ≠ [])
     (hbe : L.tif = .be → firstNext L rs ≠ 0x100 ∧ firstNext L rs ≠ 0x10000)
     (hsz : fileSize L rs + 24 < 4294967296) (hops : HistOK rs ops) (hi : i < rs.length) :
-    (run (encode L rs) (some (Rd.new (encode L rs)))
+    (run cfg (encode L rs) (some (Rd.new (encode L rs)))
         ((ops ++ ([Op.seek i, Op.read (-1), Op.tell] : List Op)).map (concOp L rs))).drop ops.length
       = [.pos (tellOf L rs i), .bytes (recAt rs i), .pos (tellOf L rs i)] := by
   have hops' : HistOK rs (ops ++ ([Op.seek i, Op.read (-1), Op.tell] : List Op)) := by
@@ -97,10 +99,69 @@ theorem seek_any_order (L : Layout) (rs : List Bytes) (ops : List Op) (i : Nat)
     · subst hj
       simp only [List.mem_cons, Op.seek.injEq, reduceCtorEq, List.mem_nil_iff, or_false] at h
       omega
-  rw [read_refines L rs _ hL hr hne hbe hsz hops', absRun_append]
+  rw [read_refines cfg L rs _ hL hr hne hbe hsz hops', absRun_append]
   have hl := absRun_length L rs ops AState.init
   rw [← hl, List.drop_left]
   exact abs_seek_read L rs _ i hi (hr _ (by unfold recAt; simp [hi]))
+
+/-- **pad_tie_order** (`ret_padding_options_with_max_records` + `best_physical_record_pad_settings`): the options are
+scanned in the order (0,F) (0,T) (2,F) (2,T) (4,F) (4,T) and among those with the maximal count the FIRST is chosen —
+so whenever the first option counts at least one record and none counts more, the first option is returned. -/
+theorem pad_tie_order (o : Nat × Bool) (c : Nat) (t : List ((Nat × Bool) × Nat)) (hc : 0 < c)
+    (h : ∀ x ∈ t, x.2 ≤ c) : pickBest ((o, c) :: t) = some o :=
+  best_first o c t hc h
+
+/-- **scan_counts_records**: scanning (`scan_file_no_output` / `genPr`) a file written without padding with
+`pad_modulo = 0` (any `keepGoing`) counts exactly its physical records, up to `pr_limit`. -/
+theorem scan_counts_records (cfg : Cfg) [Pad0 cfg] (L : Layout) (rs : List Bytes) (limit : Nat)
+    (hL : L.Valid) (hr : ∀ r ∈ rs, r ≠ []) (hne : L.tif ≠ .off → rs ≠ [])
+    (hbe : L.tif = .be → firstNext L rs ≠ 0x100 ∧ firstNext L rs ≠ 0x10000)
+    (hsz : fileSize L rs + 24 < 4294967296) :
+    scanFile cfg (encode L rs) limit = if limit = 0 then numPRs L rs else min limit (numPRs L rs) :=
+  scan_unpadded ⟨hL, hr, by unfold fileSize at hsz; omega⟩ hne hbe limit
+
+/-- **pad_reader_refines** — the reader obtained through `file_read_with_best_physical_record_pad_settings(f, id,
+pr_limit)` on an unpadded written file is `FileRead(f, id, keepGoing=True, pad_modulo=0, pad_non_null=False)` and
+answers every history like the abstract semantics, provided `0 < pr_limit ≤ number of physical records` (then no padding
+option can count more than `pr_limit` records, and (0, False) is first among the tied best options). -/
+theorem pad_reader_refines (L : Layout) (rs : List Bytes) (ops : List Op) (limit : Nat)
+    (hL : L.Valid) (hr : ∀ r ∈ rs, r ≠ []) (hne : L.tif ≠ .off → rs ≠ [])
+    (hbe : L.tif = .be → firstNext L rs ≠ 0x100 ∧ firstNext L rs ≠ 0x10000)
+    (hsz : fileSize L rs + 24 < 4294967296) (hops : HistOK rs ops)
+    (hl : 0 < limit) (hn : limit ≤ numPRs L rs) :
+    bestPad (encode L rs) limit = some (0, false)
+    ∧ ∃ cfg, bestReaderCfg (encode L rs) limit = some cfg
+        ∧ run cfg (encode L rs) (some (Rd.new (encode L rs))) (ops.map (concOp L rs)) = absRun L rs AState.init ops := by
+  have g : Good L rs := ⟨hL, hr, by unfold fileSize at hsz; omega⟩
+  have hb := bestPad_unpadded_limit g hne hbe limit hl hn
+  refine ⟨hb, ⟨true, 0, false⟩, by unfold bestReaderCfg; rw [hb]; rfl, ?_⟩
+  exact read_refines ⟨true, 0, false⟩ L rs ops hL hr hne hbe hsz hops
+
+/-- **pad_reader_refines_cond** — the same for every `pr_limit` (0 = scan the whole file) under the explicit hypothesis
+that no padding option makes the scan count more records than the file has (within the limit). The hypothesis cannot be
+dropped: the scan is a heuristic, a payload that looks like physical records after a mis-consumed byte can make a
+padding option count more (the full statement "for every unpadded written file the choice is (0, False)" is false for
+`pr_limit = 0` and for `pr_limit` above the number of records). -/
+theorem pad_reader_refines_cond (L : Layout) (rs : List Bytes) (ops : List Op) (limit : Nat)
+    (hL : L.Valid) (hr : ∀ r ∈ rs, r ≠ []) (hrs : rs ≠ [])
+    (hbe : L.tif = .be → firstNext L rs ≠ 0x100 ∧ firstNext L rs ≠ 0x10000)
+    (hsz : fileSize L rs + 24 < 4294967296) (hops : HistOK rs ops)
+    (hle : ∀ o ∈ padOptions, scanFile ⟨true, o.1, o.2⟩ (encode L rs) limit
+        ≤ (if limit = 0 then numPRs L rs else min limit (numPRs L rs))) :
+    bestPad (encode L rs) limit = some (0, false)
+    ∧ ∃ cfg, bestReaderCfg (encode L rs) limit = some cfg
+        ∧ run cfg (encode L rs) (some (Rd.new (encode L rs))) (ops.map (concOp L rs)) = absRun L rs AState.init ops := by
+  have g : Good L rs := ⟨hL, hr, by unfold fileSize at hsz; omega⟩
+  have hb := bestPad_unpadded_of_le g (fun _ => hrs) hbe limit hrs hle
+  refine ⟨hb, ⟨true, 0, false⟩, by unfold bestReaderCfg; rw [hb]; rfl, ?_⟩
+  exact read_refines ⟨true, 0, false⟩ L rs ops hL hr (fun _ => hrs) hbe hsz hops
+
+/-- hypotheses of `pad_reader_refines` are satisfiable (5 physical records, pr_limit 5), and the model computes the
+choice: all six options tie at 5 records and (0, False) is returned -/
+example : let L : Layout := ⟨8, false, none, false, .off⟩
+    let rs : List Bytes := [[1,2,3,4],[5,6,7,8,9,10,11,12],[13,14,15,16],[17]]
+    numPRs L rs = 5 ∧ (scanAll true (encode L rs) 5).map (·.2) = [5, 5, 5, 5, 5, 5]
+    ∧ bestPad (encode L rs) 5 = some (0, false) := by decide +kernel
 
 /-- the hypotheses of `read_refines` are satisfiable by a non-trivial instance: reversed TIF, record-number and
 file-number trailers, maximum payload 3, records of 7 and 2 bytes, a history that reads across PR boundaries, seeks
@@ -126,7 +187,7 @@ on the real code by the harness.) -/
 example : let L : Layout := ⟨244, false, none, false, .be⟩
     let rs : List Bytes := [List.replicate 240 65, [1, 2]]
     firstNext L rs = 0x100 ∧
-    run (encode L rs) (some (Rd.new (encode L rs))) ([.read (-1), .read (-1)].map (concOp L rs))
+    run Cfg.plain (encode L rs) (some (Rd.new (encode L rs))) ([.read (-1), .read (-1)].map (concOp L rs))
       ≠ absRun L rs AState.init [.read (-1), .read (-1)] := by
   decide +kernel
 
